@@ -290,4 +290,13 @@ def expectedAccessSources : List (String × String × String) := [
   ("decompile.py", "DvClass.__init__", "call:get_access_class")
 ]
 
+/-- `DvMethod.process()` re-creates the parameter list and the register → variable mapping by an
+    UNCONDITIONAL `self._init_variables()` before the first use of the mapping (only the early return for
+    methods without code precedes it), whatever an earlier — completed or aborted — call left behind. -/
+def expectedProcessReinit : List (String × String) := [
+  ("DvMethod.process", "unconditional"),
+  ("DvMethod.process:before", "return-if-no-code"),
+  ("DvMethod._init_variables:resets", "lparams,var_to_name")
+]
+
 end AgVerif.Order
